@@ -7,6 +7,11 @@ from checkcfg import PROPS
 BASELINE = json.load(open('/root/.vp/BASELINE.json'))['cmd'] if os.path.exists('/root/.vp/BASELINE.json') else ''
 
 TEXT = {
+ "C09": dict(
+   technique="stateful property-based testing (rapid state machine) with a pending-set reference model; wallet stores read back and decoded",
+   text="On top of C01's world, generated unconfirmed transactions (spends of wallet coins, payments to the wallet, chains through wallet-owned and foreign outputs, duplicates, conflicting spends of one wallet coin) are delivered to the handler's mempool step and interleaved with blocks that confirm a generated subset, confirm conflicting spends, and reorganisations that un-confirm them (re-mined / dropped / double-spent through a wallet coin). After every step the pending-set model (insert, dedupe, settle once, purge conflict with ALL unconfirmed descendants, return on un-confirm) is compared with: the pending store read back and decoded to the same transaction, GetUtxo.spent_by_unmined of every wallet coin, the inputs of AutoCreateRawTransaction drafts, residue in the pending-input and pending-credit stores, and C01's ledger audit (pending credits not counted, confirmed exactly once). Three defects found this way were repaired (fix: 910897a, 30c03a0, d073483) and stay as deterministic regression histories. Exploration: sampled histories.",
+   note="The wallet is told only about relevant transactions, so conflicts that involve none of its coins or addresses are invisible to it by construction; the generator therefore never lets a block double-spend a pending transaction through a coin no wallet owns, and purges pending spenders of a disconnected coinbase only when a wallet owns that output. Notifications are delivered immediately in this check (lag is C01's subject). The node's own mempool is kept empty.",
+   ref="DESIGN.md §3 C09"),
  "C01": dict(
    technique="stateful property-based testing (rapid state machine): generated chain histories on a simulated node built from real mass-core components, real wallet driven in stepped mode, compared with an independent ledger model (fold over the best chain)",
    text="Generated histories (new addresses; blocks with coinbase / standard / staking / old+new binding / nulldata outputs, spends of any mature coin, in-block spend chains, transactions paying several wallets; reorganisations of depth 1..8 with every rolled-back transaction re-mined, dropped or double-spent and ONE notification for the new tip, incl. equal-length replacement; un-announced blocks; notifications queued and delivered later, after the chain moved again) run against the real WalletManager/NtfnsHandler (the harness plays the handler's select loop through build-tag hooks). At every quiescent point UseWallet total, WalletBalance (several confs), AddressBalance (all / subsets), GetUtxo (per-address grouping, amount, height, confirmations, spendable flag) and SyncedTo are compared with a ledger recomputed by a plain fold over the node's best chain using the consensus maturity formulas. Two defects found this way were repaired (fix: 8220227, 3292e36) and stay as deterministic regression histories. Exploration: sampled histories, not exhaustive.",
